@@ -141,6 +141,10 @@ def design_checks(ctx, thorough):
                           MaxBatch=2 if thorough else 1, MaxReq=2, Chain="TRUE")),
     ]
     if thorough:
+        # small config in which every action can fire, run with -coverage (vacuity guard)
+        runs.append(("mc_cov", dict(masked, BaseName='{"a"}', Kinds='{"index","virtual","free","calc"}',
+                                    Opts='{"plain","retrieve","overwrite"}', MaxBatch=2, MaxReq=2, MaxRestart=1,
+                                    Chain="TRUE")))
         runs.append(("mc_deep", dict(masked, Kinds='{"index","fixed","virtual","calc"}', MaxReq=3,
                                      Opts='{"plain","overwrite"}', InjectFail="FALSE")))
         # every deviation repaired, failures driven by invalid inputs allowed ANYWHERE (no masking):
@@ -154,7 +158,7 @@ def design_checks(ctx, thorough):
         tag, consts = item
         return tag, ctx.tlc(AREA, "ChannelSvc", tag + ".cfg", files={tag + ".cfg": cfg("Spec", consts, {}, inv)},
                             tag=tag, workers=5 if thorough else 3, timeout=2400,
-                            coverage=(thorough and tag == "mc_kinds"))
+                            coverage=(tag == "mc_cov"))
     ctx.spec_copy(AREA)
     with concurrent.futures.ThreadPoolExecutor(max_workers=5 if thorough else 3) as ex:
         for tag, r in ex.map(one, runs):
@@ -164,7 +168,7 @@ def design_checks(ctx, thorough):
                     "(see build dir %s.out)" % (tag, r.violated, tag))
             res.append({"config": tag, "distinct": r.distinct, "generated": r.generated,
                         "depth": r.depth, "wall_s": round(r.wall, 1),
-                        "zero_coverage": r.coverage_zero[:10]})
+                        "zero_coverage": sorted(set(r.coverage_zero))[:10]})
     return res
 
 
@@ -279,8 +283,8 @@ def gen_profiles(thorough):
                       consts=dict(Node="{1,2}" if thorough else "{1}", BaseName='{"a","b"}', Kinds=kinds,
                                   Types='{"create","delete"}', MaxReq=3), depth=3))
     # options on batches of two
-    p.append(dict(name="bfs_opts", mode="bfs", sample=3000 if thorough else 300,
-                  consts=dict(Node="{1,2}" if thorough else "{1}", BaseName='{"a","b"}', Kinds='{"index","virtual"}',
+    p.append(dict(name="bfs_opts", mode="bfs", sample=None if thorough else 300,
+                  consts=dict(Node="{1}", BaseName='{"a","b"}', Kinds='{"index","virtual"}',
                               Opts=opts, Types='{"create"}', MaxBatch=2, MaxReq=2), depth=2))
     # restarts: counters, engine directories and names must survive (on-disk storage)
     p.append(dict(name="bfs_restart", mode="bfs", sample=None,
